@@ -305,6 +305,11 @@ EXPLANATION = (
     'C15.GUARD (decided): the 8966-byte gate. Not decided: "keeps working afterwards" beyond exception containment, and implicit '
     'exceptions outside the decoder region [X].'
 )
+EXPLANATION_ADDENDUM = (
+    ' C15.CONTAINERS (necessary): partial operations on stateful containers and on lists that come out of a datagram are guarded. C15.MEMORY (decided): the duplicate memory is rewritten as a whole before any dispatch. C15.OPTIONAL (necessary): no attribute / item is taken from a possibly-None value on the datagram path (type oracle with a structural fallback). C15.ASSEMBLED (necessary): pending deferral timer implies a non-empty deferred list.'
+)
+EXPLANATION = EXPLANATION + EXPLANATION_ADDENDUM
+
 RULES = [escape, guard]
 
 
